@@ -6,6 +6,7 @@ import (
 	"net"
 	"net/textproto"
 	"strconv"
+	"sync"
 	"time"
 )
 
@@ -14,6 +15,7 @@ var _ bytes.Buffer
 var _ net.Conn
 var _ textproto.Conn
 var _ time.Time
+var _ sync.Mutex
 var _ io.Reader
 
 // ---------------------------------------------------------------------------------------------
@@ -83,3 +85,7 @@ func ghost_bufstr(b *bytes.Buffer) string { panic("ghost") }
 
 //@ ext (*bytes.Buffer).String(b *bytes.Buffer) (r string)
 //@   ensures r == ghost_bufstr(b)
+
+//@ ext (*sync.WaitGroup).Add(wg *sync.WaitGroup, delta int)
+//@ ext (*sync.WaitGroup).Done(wg *sync.WaitGroup)
+//@ ext (*sync.WaitGroup).Wait(wg *sync.WaitGroup)
